@@ -23,6 +23,7 @@ The base storage must not change.
 import os
 import random
 import tempfile
+import time
 import weakref
 
 import zope.interface
@@ -32,6 +33,7 @@ import ZODB.blob
 import ZODB.interfaces
 import ZODB.MappingStorage
 import ZODB.POSException
+import ZODB.TimeStamp
 import ZODB.utils
 
 from .ConflictResolution import ConflictResolvingStorage
@@ -124,6 +126,7 @@ class DemoStorage(ConflictResolvingStorage):
 
         self._issued_oids = set()
         self._stored_oids = set()
+        self._packed_to = ZODB.utils.z64
         self._resolved = []
 
         self._commit_lock = ZODB.utils.Lock()
@@ -232,6 +235,10 @@ class DemoStorage(ConflictResolvingStorage):
         if result is None:
             # The oid *was* in the changes, but there aren't any
             # earlier records. Maybe there are in the base.
+            if tid <= self._packed_to:
+                # ... or there were, and a pack of the changes has removed
+                # them: the base's revision would be the wrong answer.
+                return None
             try:
                 result = self.base.loadBefore(oid, tid)
             except ZODB.POSException.POSKeyError:
@@ -349,6 +356,11 @@ class DemoStorage(ConflictResolvingStorage):
             if 'gc' in str(v):
                 pass  # The gc arg isn't supported. Don't pack
             raise
+        packed_to = ZODB.TimeStamp.TimeStamp(
+            *time.gmtime(t)[:5] + (t % 60,)).raw()
+        with self._lock:
+            if packed_to > self._packed_to:
+                self._packed_to = packed_to
 
     def pop(self):
         """Close the changes database and return the base.
